@@ -39,7 +39,7 @@ Theorem output_preserved_stmt prof fuel s xs e :
 Proof.
   intros W Hp. pose proof (P_exec_stmt prof fuel (all_P prof fuel) s xs e W Hp) as H.
   destruct (exec_stmt prof fuel s xs e); cbn in H; auto.
-  - destruct H as [[_ H] _]. exact H.
+  - destruct H as [(_ & H & _) _]. exact H.
   - destruct H as [_ H]. exact H.
 Qed.
 
@@ -51,7 +51,7 @@ Theorem output_preserved_program prof fuel p c :
 Proof.
   pose proof (exec_program_inv prof fuel p c) as H.
   destruct (exec_program prof fuel p c); cbn in H; auto.
-  - destruct H as [[_ H] _]. exact H.
+  - destruct H as [(_ & H & _) _]. exact H.
   - destruct H as [_ H]. exact H.
 Qed.
 
@@ -75,6 +75,36 @@ Theorem scopes_restored_expr prof fuel x e v e' :
 Proof.
   intros W E. pose proof (P_produce_expr prof fuel (all_P prof fuel) x e W) as H.
   rewrite E in H. destruct H as [[H _] _]. exact H.
+Qed.
+
+(** * C05: which names a scope binds.  The innermost scope may gain names (appended), every
+    enclosing scope keeps exactly its names — through any statement, and through anything it calls *)
+Theorem names_only_grow_stmt prof fuel s xs e xs' e' :
+  wf e -> prex xs -> exec_stmt prof fuel s xs e = XOk xs' e' -> SK (scopes e) (scopes e').
+Proof.
+  intros W Hp E. pose proof (P_exec_stmt prof fuel (all_P prof fuel) s xs e W Hp) as H.
+  rewrite E in H. destruct H as [(_ & _ & H) _]. exact H.
+Qed.
+
+Theorem names_only_grow_expr prof fuel x e v e' :
+  wf e -> produce_expr prof fuel x e = XOk v e' -> SK (scopes e) (scopes e').
+Proof.
+  intros W E. pose proof (P_produce_expr prof fuel (all_P prof fuel) x e W) as H.
+  rewrite E in H. destruct H as [(_ & _ & H) _]. exact H.
+Qed.
+
+(** locals do not leak: whatever a body binds in the scope [t0] opened for it (parameters, first
+    assignments), once that scope is popped the enclosing scopes bind exactly the names they bound before *)
+Theorem body_locals_do_not_leak prof fuel body xs e1 e2 t0 xs' e3 :
+  scopes e2 = t0 :: scopes e1 -> prex xs ->
+  exec_block prof fuel body xs e2 = XOk xs' e3 ->
+  map keys (tl (scopes e3)) = map keys (scopes e1).
+Proof.
+  intros Hs Hp E.
+  assert (W : wf e2) by (unfold wf, depth_of; rewrite Hs; cbn; lia).
+  pose proof (P_exec_block prof fuel (all_P prof fuel) body xs e2 W Hp) as H.
+  rewrite E in H. destruct H as [(_ & _ & H) _]. rewrite Hs in H.
+  destruct (scopes e3) as [|t3 r3]; [contradiction|]. destruct H as [_ H]. cbn. auto.
 Qed.
 
 (** * C04: the semantic clauses (one step of fuel = one unfolding of the Rust method) *)
